@@ -16,6 +16,13 @@ fn breadcrumb(case: &Value) {
     }
 }
 
+/// an owned copy with spare capacity
+fn roomy(a: &str) -> String {
+    let mut s = String::with_capacity(a.len() + 9 + a.len() / 2);
+    s.push_str(a);
+    s
+}
+
 fn touch_err(e: &Error, sink: &mut usize) {
     *sink += format!("{e}").len() + format!("{e:?}").len();
 }
@@ -48,12 +55,18 @@ macro_rules! all_profile_ops {
         touch(p.prepare($s), $sink);
         touch(p.enforce($s), $sink);
         touch(p.enforce($s.to_string()), $sink);
+        touch(p.enforce(roomy($s)), $sink);
+        touch(p.prepare(std::borrow::Cow::<str>::Owned(roomy($s))), $sink);
+        touch(p.width_mapping_rule(roomy($s)), $sink);
+        touch(p.additional_mapping_rule(roomy($s)), $sink);
+        touch(p.case_mapping_rule(roomy($s)), $sink);
+        touch(p.normalization_rule(roomy($s)), $sink);
         touchb(p.compare($s, $t2), $sink);
         touchb(p.compare($t2, $s), $sink);
         touch(<$t as PrecisFastInvocation>::prepare($s), $sink);
         touch(<$t as PrecisFastInvocation>::enforce($s), $sink);
         touchb(<$t as PrecisFastInvocation>::compare($s, $t2), $sink);
-        $n += 13;
+        $n += 19;
     }};
 }
 
